@@ -10,6 +10,8 @@ Rf(h) == [op |-> "refs", h |-> h, to |-> <<>>]
 \* a and b exist at the start (new_with_clones::<2>); every thread only uses handles it owns
 Script_3t == << <<Cl("a", "c"), Dr("a"), Rf("c"), Dr("c")>>, <<Cl("b", "d"), Dr("d"), Dr("b")>>, <<>> >>
 Script_3t2 == << <<In("a", <<"c", "d">>), Dr("c"), Dr("a"), Dr("d")>>, <<Rf("b"), Cl("b", "e"), Dr("b")>>, <<>> >>
+\* one handle cloned / bulk-incremented through a shared reference by two threads at once
+Script_shared == << <<Cl("a", "c"), Dr("c")>>, <<In("a", <<"d", "e">>), Dr("d"), Dr("e")>>, <<Rf("a")>> >>
 Script_hand == << <<Cl("a", "c"), Dr("a")>>, <<Dr("b")>>, <<>> >>
 MCInit == Init /\ opi = [p \in Procs |-> 1]
 MCCreate == /\ refs = 0 /\ live = {} /\ ~freed /\ \A p \in Procs : opi[p] = 1 /\ pc[p] = "idle"
